@@ -9,19 +9,19 @@ Definition ignore_ctx : hid -> bool := fun _ => false.
 (** D5: the running-handlers wait finishes before the loop dispatches a message it has
     already received; Close returns nil and the handler runs afterwards *)
 Definition d5_schedule : list label :=
-  [LEmit 0; LDeliver 0; LCall 0; LClose 0; LClose 0; LClose 0; LW2; LW2; LW2; LLoop 0; LLoop 0; LMsg 0;
+  [LEmit 0; LDeliver 0; LCall 0; LClose 0; LClose 0; LClose 0; LClose 0; LW2; LW2; LW2; LLoop 0; LLoop 0; LMsg 0;
    LHcClosing 0; LHc 0; LChanClose 0; LPump 0; LPump 0; LLoop 0; LLoop 0; LLoop 0; LW1; LWaitDone 0; LClose 0; LClose 0].
 
 (** D6: handleClose reaches its select after Run cancelled the context and takes ctx.Done:
     the subscriber (which ignores its context) is never closed, nothing can move but the
     clock, although no handler is running *)
 Definition d6_schedule : list label :=
-  [LCall 0; LClose 0; LClose 0; LClose 0; LRun; LRun; LHcCtx 0; LHc 0].
+  [LCall 0; LClose 0; LClose 0; LClose 0; LClose 0; LRun; LRun; LHcCtx 0; LHc 0].
 
 (** D12: the first Close times out while a handler runs; a second Close returns nil *)
 Definition d12_schedule : list label :=
-  [LEmit 0; LDeliver 0; LLoop 0; LLoop 0; LMsg 0; LCall 0; LClose 0; LClose 0; LClose 0; LTimeout 0; LClose 0; LClose 0;
-   LCall 1; LClose 1; LClose 1; LClose 1].
+  [LEmit 0; LDeliver 0; LLoop 0; LLoop 0; LMsg 0; LCall 0; LClose 0; LClose 0; LClose 0; LClose 0; LTimeout 0; LClose 0; LClose 0;
+   LCall 1; LClose 1; LClose 1; LClose 1; LClose 1].
 
 Definition running_after_nil (s : state) (c : cid) (m : mid) : bool :=
   returned s c RNil && match mp s m with MRunning => true | _ => false end.
@@ -77,7 +77,7 @@ Proof. vm_compute. reflexivity. Qed.
 (** a graceful close in the repaired model: Close overlaps a message in the pipeline, waits
     for it, returns nil; everything is at rest and closed *)
 Definition graceful_schedule : list label :=
-  [LEmit 0; LDeliver 0; LCall 0; LClose 0; LClose 0; LClose 0; LRun; LRun; LLoop 0; LLoop 0; LMsg 0;
+  [LEmit 0; LDeliver 0; LCall 0; LClose 0; LClose 0; LClose 0; LClose 0; LRun; LRun; LLoop 0; LLoop 0; LMsg 0;
    LHcClosing 0; LHc 0; LChanClose 0; LPump 0; LPump 0; LSubCloseRet 0; LHc 0; LHc 0; LLoop 0; LLoop 0; LLoop 0; LW1; LW2;
    LFinish 0; LMsg 0; LMsg 0; LMsg 0; LW2; LW2; LWaitDone 0; LClose 0; LClose 0; LRun].
 Lemma graceful_example :
@@ -92,8 +92,8 @@ Proof. vm_compute. reflexivity. Qed.
 (** a subscriber whose Close() never returns and a handler that never finishes: Close still
     returns the timeout error, so does a second call, and Run returns *)
 Definition blocked_sub_close_schedule : list label :=
-  [LEmit 0; LDeliver 0; LLoop 0; LLoop 0; LMsg 0; LCall 0; LClose 0; LClose 0; LClose 0; LHcClosing 0; LHc 0;
-   LTimeout 0; LClose 0; LClose 0; LRun; LRun; LRun; LCall 1; LClose 1; LClose 1; LClose 1].
+  [LEmit 0; LDeliver 0; LLoop 0; LLoop 0; LMsg 0; LCall 0; LClose 0; LClose 0; LClose 0; LClose 0; LHcClosing 0; LHc 0;
+   LTimeout 0; LClose 0; LClose 0; LRun; LRun; LRun; LCall 1; LClose 1; LClose 1; LClose 1; LClose 1].
 Lemma blocked_sub_close_example :
   match replay (init 1 ignore_ctx true true true) blocked_sub_close_schedule with
   | Some s => returned s 0 RErr && returned s 1 RErr && match run s with RDone => true | _ => false end &&
@@ -106,7 +106,7 @@ Proof. vm_compute. reflexivity. Qed.
 (** D16: a handler that was added but never started (AddHandler after Run without RunHandlers, or
     a router that was never run) is counted by handlersWg for ever: Close can only time out
     although nothing runs, nothing is blocked and the context was not cancelled *)
-Definition d16_schedule : list label := [LCall 0; LClose 0; LClose 0; LClose 0; LRun; LRun].
+Definition d16_schedule : list label := [LCall 0; LClose 0; LClose 0; LClose 0; LClose 0; LRun; LRun].
 Lemma d16_witness :
   match replay (init_u 0 1 ignore_ctx true true true false) d16_schedule with
   | Some s => match cp s 0 with CWait => true | _ => false end && negb (early_cancel s) &&
@@ -118,6 +118,26 @@ Lemma d16_fixed_returns_nil :
   match replay (init_u 0 1 ignore_ctx true true true true)
                (d16_schedule ++ [LW1; LW2; LW2; LW2; LWaitDone 0; LClose 0; LClose 0; LRun]) with
   | Some s => returned s 0 RNil && match run s with RDone => true | _ => false end
+  | None => false
+  end = true.
+Proof. vm_compute. reflexivity. Qed.
+
+(** the variant in which RunHandlers calls IsClosed() while it holds handlersLock (lock order
+    handlersLock -> closedLock against Close's closedLock -> handlersLock): a RunHandlers call and a
+    Close call that overlap block each other for ever - no step of either, no timeout, nothing *)
+Definition rh_deadlock_schedule : list label := [LRhCall 0; LRh 0; LCall 0; LClose 0; LRh 0].
+Lemma rh_isclosed_deadlock_witness :
+  match replay (init_rh_isclosed 1 ignore_ctx) rh_deadlock_schedule with
+  | Some s => match cp s 0 with CHWant => true | _ => false end && match rp s 0 with RHCWant => true | _ => false end &&
+              negb (enabled s (LClose 0)) && negb (enabled s (LTimeout 0)) && negb (enabled s (LRh 0)) &&
+              match sys_enabled s 1 with [LHcClosing 0] | [] => true | _ => false end
+  | None => false
+  end = true.
+Proof. vm_compute. reflexivity. Qed.
+(** the code as it is: the same overlap resolves *)
+Lemma rh_overlap_resolves :
+  match replay (init 1 ignore_ctx true true true) ([LRhCall 0; LRh 0; LCall 0; LClose 0; LRh 0; LClose 0; LClose 0]) with
+  | Some s => match cp s 0 with CSignal => true | _ => false end && match rp s 0 with RHDone => true | _ => false end
   | None => false
   end = true.
 Proof. vm_compute. reflexivity. Qed.
